@@ -354,6 +354,15 @@ theorem N_error_value :
     foldE (S := Unit) (fun (e : String × Nat) => some e.1) (fun s _ => s) () [("b", 2), ("a", 1)]
         = .error "b" := ⟨rfl, rfl⟩
 
+/-- N_sort_by_derived_key: the collected discriminator values are sorted by the class they map
+    to; `dog` and `puppy` both map to `Dog`, so both orders are sorted and a (stable or not)
+    sort may return either — the antisymmetry premise of `S_collect_then_sort` fails. -/
+theorem N_sort_by_derived_key :
+    ∃ r₁ r₂ : List (String × String),
+      r₁ ~ r₂ ∧ r₁.Pairwise (fun a b => a.2 ≤ b.2) ∧ r₂.Pairwise (fun a b => a.2 ≤ b.2) ∧ r₁ ≠ r₂ :=
+  ⟨[("dog", "Dog"), ("puppy", "Dog")], [("puppy", "Dog"), ("dog", "Dog")], Perm.swap _ _ _,
+   by simp, by simp, by decide⟩
+
 /-- N_ordered_insert: insertion into an insertion-ordered map *without* a later sort keeps
     the iteration order (that is what C19 proves about `orderedmap`) -/
 theorem N_ordered_insert :
